@@ -140,6 +140,11 @@ def run_join(src, tgt, mode, agg, shape_variant, source_delete, wildcard):
     lacking = [r for r in rows if xname not in r]
     if lacking:
         raise AssertionError('a row emitted by join does not carry the joined field %r: %r' % (xname, lacking[0]))
+    # every target row gets an aggregate VALUE of its own: two rows with the same key must not share one mutable object (the next step
+    # may edit a row in place)
+    cont = [r[xname] for r in rows if isinstance(r.get(xname), (list, dict, set))]
+    if len({id(x) for x in cont}) != len(cont):
+        raise AssertionError('two rows emitted by join share one mutable aggregate object (%s)' % type(cont[0]).__name__)
     return rows, xname
 
 
